@@ -16,6 +16,7 @@
 package hessian
 
 import (
+	"unsafe"
 	"errors"
 	"fmt"
 	"reflect"
@@ -550,9 +551,17 @@ func ConvertSliceValueType(destTyp reflect.Type, v reflect.Value) (reflect.Value
 	return convertSlice(destTyp, v, nil)
 }
 
-// convertSlice converts the list v to destTyp; path holds the lists that are being converted around it (a decoded
-// list can contain itself, and such a list has no finite conversion)
-func convertSlice(destTyp reflect.Type, v reflect.Value, path []uintptr) (reflect.Value, error) {
+// _conv is the state of one conversion of a decoded value to a typed destination: path holds the lists and maps
+// that are being converted around the current one (a decoded container can contain itself, and such a container
+// has no finite conversion), done the lists and maps that have been converted already, by (address, type, length)
+// like the reference table of the encoder
+type _conv struct {
+	path []uintptr
+	done map[_refKey]reflect.Value
+}
+
+// convertSlice converts the list v to destTyp
+func convertSlice(destTyp reflect.Type, v reflect.Value, c *_conv) (reflect.Value, error) {
 	if destTyp == v.Type() {
 		return v, nil
 	}
@@ -566,13 +575,25 @@ func convertSlice(destTyp reflect.Type, v reflect.Value, path []uintptr) (reflec
 		return _zeroValue, nil
 	}
 
+	if c == nil {
+		c = &_conv{}
+	}
+	key := _refKey{nil, destTyp, v.Len()}
 	if k == reflect.Slice {
-		for _, p := range path {
+		for _, p := range c.path {
 			if p == v.Pointer() {
 				return _zeroValue, newCodecError("ConvertSliceValueType", "a list that contains itself cannot be converted to %v", destTyp)
 			}
 		}
-		path = append(path, v.Pointer())
+		// a list that is referenced more than once is converted once: the places that shared the decoded list share
+		// the converted one, and the work stays proportional to the input (lists that refer to each other twice at
+		// every level would otherwise double it at every level)
+		key.addr = unsafe.Pointer(v.Pointer())
+		if done, ok := c.done[key]; ok {
+			return done, nil
+		}
+		c.path = append(c.path, v.Pointer())
+		defer func() { c.path = c.path[:len(c.path)-1] }()
 	}
 
 	elemKind := destTyp.Elem().Kind()
@@ -604,10 +625,16 @@ func convertSlice(destTyp reflect.Type, v reflect.Value, path []uintptr) (reflec
 			sl.Index(i).SetUint(EnsureUint64(itemValue.Interface()))
 		default:
 			// (a list of lists: the inner list gets the same conversion in setValue)
-			setValue(sl.Index(i), itemValue, path)
+			setValue(sl.Index(i), itemValue, c)
 		}
 	}
 
+	if k == reflect.Slice {
+		if c.done == nil {
+			c.done = make(map[_refKey]reflect.Value)
+		}
+		c.done[key] = sl
+	}
 	return sl, nil
 }
 
@@ -637,8 +664,8 @@ func SetValue(dest, v reflect.Value) {
 	setValue(dest, v, nil)
 }
 
-// setValue is SetValue inside the conversion of the lists in path
-func setValue(dest, v reflect.Value, path []uintptr) {
+// setValue is SetValue inside the conversion c
+func setValue(dest, v reflect.Value, c *_conv) {
 	// check whether the v is a ref holder
 	if v.IsValid() {
 		if h, ok := v.Interface().(*_refHolder); ok {
@@ -708,7 +735,7 @@ func setValue(dest, v reflect.Value, path []uintptr) {
 	if dest.Kind() == reflect.Slice && v.Kind() == reflect.Slice && dest.Type().Elem().Kind() != reflect.Uint8 {
 		// a list that arrived untyped (or under another list type) inside a list, a map or a struct:
 		// converted like one that is assigned to a field directly
-		if cv, err := convertSlice(dest.Type(), v, path); err == nil && cv.IsValid() {
+		if cv, err := convertSlice(dest.Type(), v, c); err == nil && cv.IsValid() {
 			v = cv
 		}
 	}
@@ -716,7 +743,7 @@ func setValue(dest, v reflect.Value, path []uintptr) {
 	if dest.Kind() == reflect.Map && v.Kind() == reflect.Map {
 		// a map that arrived untyped inside a list, a map or a struct: its keys and values are converted
 		// like the entries of one that is read for a field directly
-		if cv, ok := convertMap(dest.Type(), v, path); ok {
+		if cv, ok := convertMap(dest.Type(), v, c); ok {
 			v = cv
 		}
 	}
@@ -727,28 +754,41 @@ func setValue(dest, v reflect.Value, path []uintptr) {
 // convertMap converts the map v to destTyp, keys and values the way setValue stores them; path holds the
 // containers that are being converted around it (a decoded map can contain itself, and such a map has no
 // finite conversion: it is left as it is)
-func convertMap(destTyp reflect.Type, v reflect.Value, path []uintptr) (reflect.Value, bool) {
+func convertMap(destTyp reflect.Type, v reflect.Value, c *_conv) (reflect.Value, bool) {
 	if v.IsNil() {
 		return reflect.Zero(destTyp), true
 	}
-	for _, p := range path {
+	if c == nil {
+		c = &_conv{}
+	}
+	for _, p := range c.path {
 		if p == v.Pointer() {
 			return _zeroValue, false
 		}
 	}
-	path = append(path, v.Pointer())
+	// (a map that is referenced more than once is converted once, like a list)
+	key := _refKey{unsafe.Pointer(v.Pointer()), destTyp, 0}
+	if done, ok := c.done[key]; ok {
+		return done, true
+	}
+	c.path = append(c.path, v.Pointer())
+	defer func() { c.path = c.path[:len(c.path)-1] }()
 
 	m := reflect.MakeMapWithSize(destTyp, v.Len())
 	iter := v.MapRange()
 	for iter.Next() {
-		key := reflect.New(destTyp.Key()).Elem()
-		setValue(key, EnsureRawValue(iter.Key().Interface()), path)
+		mk := reflect.New(destTyp.Key()).Elem()
+		setValue(mk, EnsureRawValue(iter.Key().Interface()), c)
 		value := reflect.New(destTyp.Elem()).Elem()
 		if e := iter.Value(); !(e.Kind() == reflect.Interface && e.IsNil()) {
-			setValue(value, EnsureRawValue(e.Interface()), path)
+			setValue(value, EnsureRawValue(e.Interface()), c)
 		}
-		m.SetMapIndex(key, value)
+		m.SetMapIndex(mk, value)
 	}
+	if c.done == nil {
+		c.done = make(map[_refKey]reflect.Value)
+	}
+	c.done[key] = m
 	return m, true
 }
 
